@@ -227,3 +227,82 @@ func VServe(soc *unixsocket.Socket, conf *VServerConf) error {
 	vmu.Unlock()
 	return vsimServerTail(soc)
 }
+
+// ---- world S5: the gob-framed socket layer, two-ended ------------------------------------------
+
+// VFramed is the framed (gob) socket of this package, exported for direct two-ended simulation.
+type VFramed struct{ s *socket }
+
+// VNewFramed wraps a raw socket with the repository's framing layer.
+func VNewFramed(s *unixsocket.Socket) *VFramed { return &VFramed{newSocket(s)} }
+
+// VSendCmd sends a command of the given kind whose payload is about size bytes.
+func (f *VFramed) VSendCmd(kind string, size int, tag string, m unixsocket.Msg) error {
+	var c cmd
+	pad := make([]byte, size)
+	for i := range pad {
+		pad[i] = 'p'
+	}
+	switch kind {
+	case "open":
+		c = cmd{Cmd: cmdOpen, OpenCmd: []OpenCmd{{Path: tag + string(pad)}}}
+	case "delete":
+		c = cmd{Cmd: cmdDelete, DeleteCmd: &deleteCmd{Path: tag + string(pad)}}
+	case "symlink":
+		c = cmd{Cmd: cmdSymlink, SymlinkCmd: []SymbolicLink{{LinkPath: tag, Target: string(pad)}}}
+	case "execve":
+		c = cmd{Cmd: cmdExecve, ExecCmd: &execCmd{Argv: []string{tag, string(pad)}}}
+	default:
+		c = cmd{Cmd: cmdPing}
+	}
+	return f.s.SendMsg(c, m)
+}
+
+// VRecvCmd receives a command and returns its kind, tag and payload size.
+func (f *VFramed) VRecvCmd() (kind, tag string, size int, m unixsocket.Msg, err error) {
+	var c cmd
+	m, err = f.s.RecvMsg(&c)
+	if err != nil {
+		return
+	}
+	kind = vcmdName(c.Cmd)
+	switch {
+	case len(c.OpenCmd) > 0:
+		p := c.OpenCmd[0].Path
+		i := 0
+		for i < len(p) && p[i] != 'p' {
+			i++
+		}
+		tag, size = p[:i], len(p)-i
+	case c.DeleteCmd != nil:
+		p := c.DeleteCmd.Path
+		i := 0
+		for i < len(p) && p[i] != 'p' {
+			i++
+		}
+		tag, size = p[:i], len(p)-i
+	case len(c.SymlinkCmd) > 0:
+		tag, size = c.SymlinkCmd[0].LinkPath, len(c.SymlinkCmd[0].Target)
+	case c.ExecCmd != nil && len(c.ExecCmd.Argv) == 2:
+		tag, size = c.ExecCmd.Argv[0], len(c.ExecCmd.Argv[1])
+	}
+	return
+}
+
+// VSendReply / VRecvReply: the other message type of the protocol.
+func (f *VFramed) VSendReply(tag string, size int, m unixsocket.Msg) error {
+	pad := make([]byte, size)
+	for i := range pad {
+		pad[i] = 'p'
+	}
+	return f.s.SendMsg(reply{BatchErrors: []string{tag, string(pad)}}, m)
+}
+
+func (f *VFramed) VRecvReply() (tag string, size int, m unixsocket.Msg, err error) {
+	var r reply
+	m, err = f.s.RecvMsg(&r)
+	if err == nil && len(r.BatchErrors) == 2 {
+		tag, size = r.BatchErrors[0], len(r.BatchErrors[1])
+	}
+	return
+}
